@@ -70,6 +70,27 @@ func genSpecials(r *Rng) []special {
 `, pkg, pkg)
 	}
 	out = append(out, special{Name: "callee-package-swap", Family: "callee-swap", Files: files, P: callee("pa"), Q: callee("pb")})
+	// 2b. callee swap between two packages that DECLARE THE SAME NAME (only the import path differs)
+	files2 := map[string]string{
+		"strict/policy/p.go": fmt.Sprintf("package policy\n\nfunc Allowed(x int) int { return x %% %d }\n", 2+k2%3),
+		"lax/policy/p.go":    "package policy\n\nfunc Allowed(x int) int { return 1 }\n",
+	}
+	samename := func(dir string) string {
+		return specialHeader("genmod/"+dir+"/policy") + `func Special(a int, b int, s string, xs []int) int {
+	if a > b {
+		if policy.Allowed(a) > 0 {
+			return 10
+		}
+		return 20
+	}
+	if policy.Allowed(b+len(xs)) > 0 {
+		return 30
+	}
+	return 40
+}
+`
+	}
+	out = append(out, special{Name: "callee-same-package-name-swap", Family: "callee-swap", Files: files2, P: samename("strict"), Q: samename("lax")})
 	// 3. exchanged select cases (only the first channel is ever ready: deterministic natively)
 	sel := func(first, second string) string {
 		return specialHeader() + fmt.Sprintf(`func Special(a int, b int, s string, xs []int) int {
@@ -144,10 +165,8 @@ func Special(a int, b int, s string, xs []int) int {
 	}
 	t := 0
 %s	for i := 0; i < 4; i++ {
-		if i%%2 == 0 {
-			delete(m, i)
-		}
-		t += %s
+		t ^= %s
+		delete(m, i)
 	}
 	return t + a
 }
@@ -168,7 +187,7 @@ func Special(a int, b int, s string, xs []int) int {
 	t := 0
 %s	for i := 0; i < 5; i++ {
 		q <- i
-		t += %s
+		t ^= %s + i
 	}
 	return t + b
 }
